@@ -63,3 +63,31 @@ Definition store_scale_down (st : store) (i : nat) (k : Z) (meta : option nat) :
     | Err e => Ok (st1, OErr e)
     | Ok r' => Ok (setn st1 i (mkseq (s_abs s1) r' true false), ONone)
     end).
+
+(* ---------------------------------------------------------------- compound operations
+   harness-level compound operations: one public call that is a fixed sequence of modelled operations
+   (e.g. Sequence.scale(k) with its default quantise_afterwards=True); stops at the first error like Python *)
+Inductive hop : Set := HOp (o : op) | HSeq (os : list op)
+| HScaleDown (i : nat) (k : Z) (meta : option nat) (then_ : list op)    (* scale(1/k, meta) and, if it succeeds, then_ *)
+| HFail (o : op) (e : err).        (* a call that has the state effect of o and then raises e (argument validation) *)
+Fixpoint hseq (st : store) (os : list op) (last : out) : store * out :=
+  match os with
+  | [] => (st, last)
+  | o :: os' => let '(st1, x) := step st o in
+                match x with OErr _ => (st1, x) | _ => hseq st1 os' x end
+  end.
+Definition hstep (st : store) (h : hop) : store * out :=
+  match h with
+  | HOp o => step st o
+  | HSeq os => hseq st os ONone
+  | HScaleDown i k meta then_ =>
+      let '(st1, x) := store_scale_down st i k meta in
+      match x with OErr _ => (st1, x) | _ => hseq st1 then_ x end
+  | HFail o e => let '(st1, x) := step st o in (st1, match x with OErr _ => x | _ => OErr e end)
+  end.
+
+Fixpoint run_h (st : store) (hs : list hop) : store * list out :=
+  match hs with
+  | [] => (st, [])
+  | h :: hs' => let '(st1, x) := hstep st h in let '(st2, xs) := run_h st1 hs' in (st2, x :: xs)
+  end.
